@@ -1,10 +1,11 @@
 (* Property C03 - the ledger is a function of the main chain alone (reorganisations are exact).
    Statements only; proofs in Proofs/Pointwise.v, Proofs/Undo.v (transactions of every kind, staker reward),
    Proofs/Undo2.v (lists of transactions, blocks), Proofs/Undo3.v (the same up to the order of the funds of a pool),
-   Proofs/UndoRefuted.v (counterexamples), Proofs/NodeBasics.v. *)
+   Proofs/Undo4.v (the invariants along chains, several blocks), Proofs/UndoRefuted.v (counterexamples),
+   Proofs/NodeBasics.v. *)
 From Virel Require Import Lib.Config Lib.U64 Lib.AMap Gen.Params Model.Emission Model.Ledger Model.Node
   Proofs.Emission Proofs.Conservation Proofs.Pointwise Proofs.StakedSum Proofs.NodeBasics
-  Proofs.Undo Proofs.Undo2 Proofs.Undo3 Proofs.UndoRefuted.
+  Proofs.Undo Proofs.Undo2 Proofs.Undo3 Proofs.Undo4 Proofs.UndoRefuted.
 Open Scope N_scope.
 
 Theorem C03_cfg_ok_mainnet : cfg_ok_emission cfg_mainnet = true. Proof. vm_compute. reflexivity. Qed.
@@ -88,6 +89,46 @@ Theorem C03_undo_block_general : forall cfg genesis_addr l b top_h lB,
     exists l2, remove_block cfg genesis_addr l' b top' = Ok l2 /\ leqv_p l l2 /\ dhist l2 = dhist l'.
 Proof. exact undo_block_general. Qed.
 Print Assumptions C03_undo_block_general.
+
+(* ---- the invariants are not assumptions about reachable ledgers: they hold along every chain ---- *)
+(* PInv l = SInv l /\ FPos l /\ FUniq l holds for the empty ledger and is kept by ApplyBlockToState (transactions of
+   every kind and the staker reward: its rounding remainder is at least 1% of a non-zero reward), hence holds after
+   every chain of blocks applied to the empty ledger (heights 1, 2, ... and the scheduled supply as in Props/C01.v) *)
+Theorem C03_invariants_initial : PInv ledger0.
+Proof. exact PInv0. Qed.
+Print Assumptions C03_invariants_initial.
+
+Theorem C03_invariants_chain : forall cfg genesis_addr, cfg_ok_emission cfg = true ->
+  forall bs l (h : nat) l',
+  total_bal l = sum_rewards cfg h -> heights_from h bs ->
+  Forall (fun b => Forall (tx_ok cfg) (lb_txs b) /\ Forall stake_pos (lb_txs b)) bs -> PInv l ->
+  apply_chain cfg genesis_addr l bs = Ok l' -> PInv l'.
+Proof. exact apply_chain_PInv. Qed.
+Print Assumptions C03_invariants_chain.
+
+(* stake_pos is what stateless validation guarantees when MIN_STAKE_AMOUNT > 0 *)
+Theorem C03_prevalidate_stake_pos : forall cfg team_key t h,
+  0 < min_stake cfg -> prevalidate_tx cfg team_key t h = Ok tt -> stake_pos t.
+Proof. exact prevalidate_stake_pos. Qed.
+Print Assumptions C03_prevalidate_stake_pos.
+
+(* ---- several blocks: what a reorganisation disconnects ---- *)
+(* the blocks of a chain segment connected lowest first (TopHeight = the parent's height) and then disconnected highest
+   first (TopHeight = the block's own height, as reorg_disconnect does), starting from any ledger that agrees with
+   the tip ledger: accounts, staked total and delegate records (up to fund order) are back to what they were below
+   the segment.  chain_keys = the hashes of the blocks and the ids of their transactions, pairwise distinct. *)
+Theorem C03_undo_chain : forall cfg genesis_addr, cfg_ok_emission cfg = true ->
+  forall bs l (h : nat) ln,
+  total_bal l = sum_rewards cfg h -> heights_from h bs -> PInv l ->
+  Forall (fun b => Forall (tx_ok cfg) (lb_txs b) /\ Forall stake_pos (lb_txs b)) bs ->
+  NoDup (chain_keys bs) ->
+  (forall a, inc (acct_at l a) + chain_nouts bs < two64) ->
+  (forall a, nonce (acct_at l a) + chain_ntx bs < two64) ->
+  apply_chain cfg genesis_addr l bs = Ok ln ->
+  forall l', leqv_p ln l' -> (forall k, In k (chain_keys bs) -> nget (dhist l') k = nget (dhist ln) k) ->
+  exists l2, remove_chain cfg genesis_addr l' (rev bs) = Ok l2 /\ leqv_p l l2 /\ dhist l2 = dhist l'.
+Proof. exact undo_chain. Qed.
+Print Assumptions C03_undo_chain.
 
 (* ---- transactions: RemoveTxFromState after ApplyTxToState, all five kinds and the mismatching version bytes ---- *)
 (* exact form (same conclusion as the transfer theorem below) *)
@@ -221,11 +262,8 @@ Proof. exact deliver_rejected_unchanged. Qed.
 Print Assumptions C03_reject_unchanged.
 
 (* STILL MISSING for "the ledger is a function of the main chain alone" as a theorem about the node:
-   - the invariants FPos and FUniq are hypotheses here; SInv is proved to hold along every chain (Props/C01.v), the
-     same induction for FPos and FUniq (through the staker reward) is not done;
-   - disconnecting several blocks in a row follows by iterating C03_undo_block_general (its hypothesis on the
-     delegate history needs the hashes of the blocks and transactions involved to be pairwise distinct); the iteration
-     and the invariants at the intermediate ledgers are not written out;
-   - that connecting the blocks of the other branch from a ledger that agrees up to fund order gives ledgers that
-     agree up to fund order (ApplyBlockToState respects leqv_p), and the composition into a statement about
-     check_reorgs.  These remain covered by the implementation-side comparison with a fresh node (Check/C03.v). *)
+   that connecting the blocks of the other branch from a ledger that agrees up to fund order (what C03_undo_chain
+   delivers at the common ancestor) yields ledgers that agree up to fund order with those of a node that applied the
+   main chain only (ApplyBlockToState respects leqv_p: the lottery, the reward split and the fund lookups do not depend
+   on the order of the funds), and the composition with check_reorgs of Model/Node.v.  That half remains covered by the
+   implementation-side comparison with a fresh node (Check/C03.v), which compares the funds of a pool by owner. *)
